@@ -181,10 +181,11 @@ func (s *sessionMetadatasState) DeletePeer(peer uint64) error {
 	sessions := s.filter(func(s api.SessionMetadatas) bool { return s.Peer == peer })
 
 	event := &api.StateBroadcastEvent{SessionMetadatas: []*api.SessionMetadatas{}}
-	for _, session := range sessions {
+	for idx := range sessions {
+		session := &sessions[idx]
 		session.LastDeleted = clock()
-		event.SessionMetadatas = append(event.SessionMetadatas, &session)
-		s.set(session)
+		event.SessionMetadatas = append(event.SessionMetadatas, session)
+		s.set(*session)
 	}
 
 	buf, err := proto.Marshal(event)
